@@ -12,13 +12,13 @@ RULE = ('2-5 real threads make the FIRST request of a fresh SingletonDecorator o
         'construct ActiveObject() concurrently in a process-fresh state (which requests ActiveFabric, the fabric run event and the writer '
         'lazily); detsched switches threads at every bytecode boundary of SingletonDecorator.__call__ and every line of the constructors '
         '(seeded random and PCT schedules; in 30% of the runs the thread inside the constructor is held there for 0.5-3 s of virtual time by an injected delay); all returned objects must be the same object and later requests must return it too. ' +
-        sysx.RULE_TEXT % (1, 3) +
+        sysx.RULE_TEXT % (1, 2) +
         'Every twentieth case is a second opinion on REAL threads with the real primitives (vt/osback.py: nothing substituted, switch interval 1 us, random yields at line starts of miros code): 2-6 threads released from a barrier make the first request of a fresh decorator. '
         'distinct_nontrivial = distinct context-switch sequences in which >= 2 threads were inside __call__ at the same time')
 CASES = {'quick': 1500, 'thorough': 100000}
 BUDGET = {'quick': 150, 'thorough': 600}
 REQUIRE = {'runs': 800, 'overlapping_first_requests': 200, 'active_object_constructions': 100, 'systematic_schedules': 300, 'systematic_scenarios_exhausted': 6, 'os_backend_runs': 40, 'runs_with_slow_first_construction': 150}
-SYS = {'quick': (16, 1, 2500, 30.0), 'thorough': (32, 3, 100000, 150.0)}     # systematic cases, preemption bound, schedule cap, seconds cap (per scenario)
+SYS = {'quick': (16, 1, 2500, 30.0), 'thorough': (32, 2, 100000, 150.0)}     # systematic cases, deviation bound, schedule cap, seconds cap (per scenario)
 ASSUME = ['fresh SingletonDecorator objects per run (same class as the module-level ones); module-level instances created at import are not re-raced']
 ANNOUNCE_CASES = True
 KLASSES = ['ActiveFabricSource', 'SignalSource', 'ReturnStatusSource', 'SourceThreadEvent', 'InstrumenationWriterClass']
